@@ -69,9 +69,12 @@ static void be_transition(struct c13 *c, int kind, bool was, bool now)
     else if (now && kind == K_SET_STATUS && e->armed != ARM_YES) e->armed = ARM_MAYBE;
 }
 
+static bool interloper_touched;      /* another watcher acted on the pump in this iteration, before its callback (see be_fire) */
 static void be_cb_entry(struct c13 *c)
 {
-    if (BE(c)->timer0) BE(c)->armed = ARM_NO;   /* a one-shot timer is stopped by libev before its callback runs */
+    /* a one-shot timer is stopped by libev before its callback runs; when another watcher re-armed it in between
+     * (restart keeps the pending event and starts the timer again) both "expired" and "armed" are possible */
+    if (BE(c)->timer0) BE(c)->armed = (interloper_touched && BE(c)->armed == ARM_YES) ? ARM_MAYBE : ARM_NO;
 }
 
 static bool be_restart_in_domain(struct c13 *c)
@@ -129,9 +132,40 @@ static void be_post_free(struct c13 *c)
     check_keepalive(c, r);
 }
 
+/* "Interloper": another watcher of the same loop (an ev_check owned by the harness) whose callback libev invokes in the
+ * same iteration BEFORE the pump's (pending events of one priority are invoked last-queued first, and check watchers are
+ * queued after io, timer and idle events): it performs one tape-chosen action on the pump while the pump's event is already
+ * pending -- what a pipe does when the callback of one of its pumps stops, blocks or frees another of its pumps. */
+static struct ev_check interloper_w;
+static uint8_t interloper_action;
+static bool interloper_ran;
+static void interloper_cb(struct ev_loop *loop, struct ev_check *w, int revents)
+{
+    struct c13 *c = c13_g;
+    ev_ref(loop);                       /* undo the ev_unref made after starting it, then stop it */
+    ev_check_stop(loop, w);
+    if (!c->live || c->ret) return;
+    interloper_ran = true;
+    interloper_touched = true;
+    if (c->render) { vp_render(c->rep, "        another watcher of this iteration runs first:\n"); c->loglen = 0; c->log[0] = 0; }
+    c13_scripted_action(c, interloper_action);
+}
+
 static void be_fire(struct c13 *c)
 {
     struct ev_be *e = BE(c);
+    /* the first scripted action, when its byte is >= 0xC0, is performed by the interloper instead of the pump's callback */
+    bool with_interloper = c->nscript > 0 && c->script[0] >= 0xC0;
+    if (with_interloper) {
+        interloper_action = c->script[0];
+        for (int i = 1; i < c->nscript; i++) c->script[i - 1] = c->script[i];
+        c->nscript--;
+        ev_check_init(&interloper_w, interloper_cb);
+        ev_check_start(e->loop, &interloper_w);
+        ev_unref(e->loop);              /* must not keep the loop alive (keep-alive oracle) */
+    }
+    interloper_ran = false;
+    interloper_touched = false;
     bool act = ACTIVE(c);
     int lo, hi;
     if (e->timer0) { lo = e->armed == ARM_YES; hi = e->armed != ARM_NO; if (act && e->armed == ARM_NO) CLS(CL_EXPIRED); }
@@ -147,6 +181,13 @@ static void be_fire(struct c13 *c)
     int r = ev_run(e->loop, EVRUN_NOWAIT);
     c->in_loop = false;
     int got = c->fires - before;
+    if (with_interloper) {
+        if (ev_is_active(&interloper_w)) { ev_ref(e->loop); ev_check_stop(e->loop, &interloper_w); }
+        /* whatever the interloper did, the pump's pending event may legitimately have been cancelled (stop, first blocker,
+         * the stop/start cycle of set_status, restart, free): no lower bound; the upper bound is judged inside the callback
+         * against the state the interloper left (fire/while-stopped, fire/while-blocked, fire/after-free) */
+        if (interloper_ran) { lo = 0; CLS(CL_INTERLOPER); }
+    }
     if (!c->ret && got < lo)
         FAIL("C13/nofire/iterate", "the loop iteration did not invoke the callback although the pump is started, not blocked%s (live=%d started=%d blockers=%d)",
              e->timer0 ? " and its 0-tick timer is armed" : "", c->live, c->started, c->nb);
@@ -156,7 +197,7 @@ static void be_fire(struct c13 *c)
     c13_after_dispatch(c);
     /* an undecided timer that did not expire in this iteration was not armed (a 'maybe' set by the
      * callback itself during this iteration stays undecided until the next one) */
-    if (e->timer0 && armed0 == ARM_MAYBE && got == 0 && e->armed == ARM_MAYBE) e->armed = ARM_NO;
+    if (e->timer0 && armed0 == ARM_MAYBE && got == 0 && e->armed == ARM_MAYBE && !interloper_ran) e->armed = ARM_NO;   /* (another watcher's stop/start cycle cancels a pending expiry and re-arms) */
     char what[48];
     snprintf(what, sizeof what, "  -> fired=%d loop_alive=%d", got, r);
     c13_line(c, what);
